@@ -1,0 +1,24 @@
+//go:build verif
+
+package server
+
+// Verification hooks (build tag verif). Without the tag these are empty
+// functions (verif_hooks_off.go). A test installs the function variables.
+
+// VerifGateHook is called at named scheduling points; it may block.
+var VerifGateHook func(name string)
+
+// VerifTraceHook receives trace events emitted at linearization points.
+var VerifTraceHook func(ev string, fields ...interface{})
+
+func verifGate(name string) {
+	if h := VerifGateHook; h != nil {
+		h(name)
+	}
+}
+
+func verifTrace(ev string, fields ...interface{}) {
+	if h := VerifTraceHook; h != nil {
+		h(ev, fields...)
+	}
+}
